@@ -5,7 +5,7 @@ all event-log hashes must agree.  usage: tools/determinism.py [seeds_per_mode] [
 Writes selftest/determinism.json; exit 1 on any divergence."""
 import json, os, subprocess, sys, threading
 ROOT = os.path.dirname(os.path.dirname(os.path.abspath(__file__)))
-MODES = [("model", "C01"), ("model", "C07"), ("crash", "C05"), ("conc", "C08"), ("conc", "C10"), ("ioerr", "C12"), ("corrupt", "C11"), ("logfmt", "C15"), ("repair", "C19"), ("life", "C20")]
+MODES = [("model", "C01"), ("model", "C07"), ("crash", "C05"), ("crash", "C13"), ("conc", "C08"), ("conc", "C10"), ("shard", "C07"), ("ioerr", "C12"), ("corrupt", "C11"), ("logfmt", "C15"), ("repair", "C19"), ("life", "C20")]
 
 def run(binary, mode, prop, start, n, out):
     r = subprocess.run([binary, "selftest", "--mode", mode, "--prop", prop, "--start", str(start), "--n", str(n)], stdout=subprocess.PIPE, stderr=subprocess.DEVNULL, text=True)
